@@ -100,18 +100,34 @@ func overwriteResourcesFromNode(template *corev1.PodTemplateSpec, edsNamespace, 
 
 	var errs []error
 	for id, container := range template.Spec.Containers {
-		ressourceAnnotationKey := fmt.Sprintf(datadoghqv1alpha1.ExtendedDaemonSetRessourceNodeAnnotationKey, edsNamespace, edsName, container.Name)
-		if val, ok := node.GetAnnotations()[ressourceAnnotationKey]; ok {
-			var newResources corev1.ResourceRequirements
-			if err := json.Unmarshal([]byte(val), &newResources); err != nil {
-				errWrap := fmt.Errorf("unable to decode %s annotation value, err: %w", ressourceAnnotationKey, err)
-				errs = append(errs, errWrap)
+		newResources, found, err := NodeResourcesOverwrite(node, edsNamespace, edsName, container.Name)
+		if err != nil {
+			errs = append(errs, err)
 
-				continue
-			}
+			continue
+		}
+		if found {
 			template.Spec.Containers[id].Resources = newResources
 		}
 	}
 
 	return errors.NewAggregate(errs)
+}
+
+// NodeResourcesOverwrite returns the resources set for a container by the Node resources annotation.
+// found is false if the Node has no such annotation, or if its value can't be decoded (err is then also set).
+func NodeResourcesOverwrite(node *corev1.Node, edsNamespace, edsName, containerName string) (newResources corev1.ResourceRequirements, found bool, err error) {
+	if node == nil {
+		return newResources, false, nil
+	}
+	ressourceAnnotationKey := fmt.Sprintf(datadoghqv1alpha1.ExtendedDaemonSetRessourceNodeAnnotationKey, edsNamespace, edsName, containerName)
+	val, ok := node.GetAnnotations()[ressourceAnnotationKey]
+	if !ok {
+		return newResources, false, nil
+	}
+	if err = json.Unmarshal([]byte(val), &newResources); err != nil {
+		return corev1.ResourceRequirements{}, false, fmt.Errorf("unable to decode %s annotation value, err: %w", ressourceAnnotationKey, err)
+	}
+
+	return newResources, true, nil
 }
